@@ -1,4 +1,5 @@
 from functools import wraps
+from traceback import clear_frames
 from inspect import getcoroutinestate, CORO_CREATED
 import reprlib
 import enum
@@ -122,6 +123,10 @@ class Task(Awaitable[RT]):
                 try_close(self.payload)
                 self.parent.__child_finished__(self, failed=False)
                 return
+            # When the payload ends by an exception, the traceback keeps its frames and
+            # their local variables alive. Among these may be suspended async generators
+            # (tickers, stream iterators, ``first``), which Python only unwinds - releasing
+            # locks, closing scopes, ... - when they are collected: release them *now*.
             try:
                 # We suspend the Task internally instead of waiting to start
                 # the Task externally. This is because starting must *always*
@@ -137,6 +142,7 @@ class Task(Awaitable[RT]):
                 ), "task for activity %r received cancellation of %r" % (
                     self, err.subject
                 )
+                clear_frames(err.__traceback__)
                 self._result = None, err.__transcript__
                 self.parent.__child_finished__(self, failed=False)
             except GeneratorExit:
@@ -146,6 +152,7 @@ class Task(Awaitable[RT]):
                 # termination in self.__close__ or during cleanup.
                 self.parent.__child_finished__(self, failed=False)
             except BaseException as err:
+                clear_frames(err.__traceback__)
                 self._result = None, err
                 self.parent.__child_finished__(self, failed=True)
             else:
